@@ -213,7 +213,7 @@ func init() {
 				}
 				return c06Front(prefixAt(k), "prefix")
 			}},
-			{Name: "bytes", Count: countFn(20000, 2000000), Run: func(ctx *core.Ctx, idx int) core.Result {
+			{Name: "bytes", Count: countFn(60000, 2000000), Run: func(ctx *core.Ctx, idx int) core.Result {
 				r := core.CaseRng(ctx.Seed, "C06/bytes", idx)
 				b := make([]byte, r.Range(0, 40))
 				for i := range b {
@@ -225,11 +225,11 @@ func init() {
 				}
 				return c06Front(string(b), "bytes")
 			}},
-			{Name: "soup", Count: countFn(30000, 3000000), Run: func(ctx *core.Ctx, idx int) core.Result {
+			{Name: "soup", Count: countFn(90000, 3000000), Run: func(ctx *core.Ctx, idx int) core.Result {
 				r := core.CaseRng(ctx.Seed, "C06/soup", idx)
 				return c06Front(genLexText(r), "soup")
 			}},
-			{Name: "mutation", Count: countFn(30000, 3000000), Run: func(ctx *core.Ctx, idx int) core.Result {
+			{Name: "mutation", Count: countFn(90000, 3000000), Run: func(ctx *core.Ctx, idx int) core.Result {
 				r := core.CaseRng(ctx.Seed, "C06/mutation", idx)
 				cs := corpus()
 				s := cs[r.Intn(len(cs))]
